@@ -1,4 +1,6 @@
-(* Model/FloatLit.v - cheap literals for the correspondence shards only (no theorem mentions them):
+(* Model/FloatLit.v - cheap literals for the correspondence shards only.  NOT in the dependency cone of Props/C09.v
+   (Coq's Uint63 library states its specifications as axioms): no theorem mentions these definitions; tools/props/C09.py
+   builds this file itself before it evaluates shards.
    a double as two primitive 63-bit integers, mantissa and exponent + 2048.  Primitive-integer numerals are read
    natively, about five times faster than Z numerals; thousands of series entries are read per run. *)
 From Coq Require Import ZArith.
